@@ -79,6 +79,15 @@ def clear_weak_caches():
     return n
 
 
+def is_memoised(method):
+    """True for a function wrapped by gemdat's memoisation decorator, whatever its implementation: either the
+    functools.lru_cache seam is visible in the closure, or the wrapper is a function defined in gemdat/caching.py."""
+    if lru_of(method) is not None:
+        return True
+    code = getattr(method, '__code__', None)
+    return bool(getattr(method, '__wrapped__', None) is not None and code is not None and code.co_filename.replace('\\', '/').endswith('gemdat/caching.py'))
+
+
 def lru_of(method):
     """The functools.lru_cache object behind a weak_lru_cache-decorated function (or None)."""
     clo = getattr(method, '__closure__', None)
